@@ -49,7 +49,7 @@ def param_spec(fi: FuncInfo, name: str, default: ast.expr | None, overrides: dic
 
 
 def run_function(fi: FuncInfo, ci: ClassInfo | None = None, overrides: dict | None = None, r: Repo | None = None,
-                 undecorated=False, self_fresh=False, limit=None, pre=None, budget_s=None, inline_self=False) -> Run:
+                 undecorated=False, self_fresh=False, limit=None, pre=None, budget_s=None, inline_self=False, contract_self=None) -> Run:
     r = r or repo()
     ex = Exec(r, tags(r))
     budget_s = budget_s or float(os.environ.get("PYVC_FUNC_BUDGET", "120"))
@@ -120,6 +120,8 @@ def run_function(fi: FuncInfo, ci: ClassInfo | None = None, overrides: dict | No
     ex.reads_global.clear()        # reads made while evaluating the invariant facts do not count
     if fi.name != "get_sql" and not inline_self:
         ex.contract_self_methods = {"get_sql"}
+    if contract_self:
+        ex.contract_self_methods = set(contract_self)
     try:
         outs = ex.explore(go, limit=limit)
         for o in outs:
